@@ -6,6 +6,7 @@ pub mod common;
 pub mod pkce;
 pub mod poll;
 pub mod req;
+pub mod resp;
 pub mod seceq;
 pub mod urlt;
 pub mod err;
@@ -23,6 +24,7 @@ pub fn dispatch(op: &str, cfg: &RunCfg, d: &mut Driver) -> Option<OpResult> {
         "rand" => run_op::<pkce::RandCase>(cfg, d),
         "url" => run_op::<urlt::UrlCase>(cfg, d),
         "seceq" => run_op::<seceq::SecEqCase>(cfg, d),
+        "resp" => run_op::<resp::RespCase>(cfg, d),
         "poll" => run_op::<poll::PollCase>(cfg, d),
         "tok" => run_op::<tok::TokCase>(cfg, d),
         "err" => run_op::<err::ErrCase>(cfg, d),
